@@ -152,6 +152,8 @@ structure PView where
 structure Case where
   id : String := ""
   nodiff : Bool := false
+  diffsAtStart : Nat := 0       -- DIFF count when the case began
+  suspects : List String := []  -- resumes of a WaitChange with unchanged values: property failures only if the model did not resume as well
   clocks : Array ClockDecl := #[]
   pinW : List Nat := []
   regs : Array RegInfo := #[]
@@ -365,8 +367,14 @@ def specProc (s : St) (pid : Nat) (t : Rat) (ph : Phase) (tick : Nat) (vals : Li
           s := s.propfail s!"kind=waitClkFree pid={pid} suspended={showRat t0} f={showRat f} resumed={showRat t} expected={showRat (specFreeClockTime t0 f)}"
     | .wch _ =>
       s := s.count "check:waitChange"
-      if vals == vals0 || ph != .after then
+      if ph != .after then
         s := s.propfail s!"kind=waitChange-unchanged pid={pid} time={showRat t} before={vals0.map showBits} after={vals.map showBits}"
+      else if vals == vals0 then
+        -- the watched signals can change and change back before the resumed process reads them (another process writes the pin back
+        -- in the same instant): equal values are a failure only if the model — whose watch semantics is proved (`waitChange_iff`:
+        -- a watch fires iff a signal differs from the snapshot at a `checkSignalWatches` call) — did not resume the process as well,
+        -- i.e. if the case shows a DIFF. Decided when the case ends.
+        s := { s with cur := { s.cur with suspects := s!"kind=waitChange-unchanged pid={pid} time={showRat t} before={vals0.map showBits} after={vals.map showBits}" :: s.cur.suspects } }
     | .ws =>
       s := s.count "check:waitStable"
       -- a process that is itself running inside `commitState` waits for the next commit (possibly of the same instant)
@@ -430,7 +438,7 @@ def handleObs (s : St) (o : Obs) : St :=
 def handleLine (s : St) (line : String) : St :=
   let toks := (line.trimAscii.toString.splitOn " ").filter (· != "")
   match toks with
-  | "case" :: id :: rest => { s with cur := { id := id, nodiff := rest.contains "nodiff" }, cases := s.cases + 1, out := [] }
+  | "case" :: id :: rest => { s with cur := { id := id, nodiff := rest.contains "nodiff", diffsAtStart := s.diffs }, cases := s.cases + 1, out := [] }
   | "width" :: _ => s
   | "clock" :: i :: rest =>
     let p := kv rest "parent"
@@ -493,7 +501,12 @@ def handleLine (s : St) (line : String) : St :=
   | "X" :: "fiber-differs" :: rest => (s.count "check:fiber-log-identical").propfail s!"kind=fiber-differs {" ".intercalate rest}"
   | "X" :: "repeat-differs" :: rest => s.propfail s!"kind=repeat-differs {" ".intercalate rest}"
   | ["X", "reps", n] => { s with hist := bump s.hist "repetitions" (2 * n.toNat!), checks := s.checks + 2 * n.toNat! }
-  | ["end"] => closeChunk s
+  | ["end"] =>
+    let s := closeChunk s
+    let sus := s.cur.suspects.reverse
+    let s := { s with cur := { s.cur with suspects := [] } }
+    if s.diffs > s.cur.diffsAtStart then sus.foldl (fun s m => s.propfail m) s
+    else sus.foldl (fun s _ => s.count "check:waitChange-values-restored-model-agrees") s
   | _ => s
 
 def jsonHist (h : List (String × Nat)) : String :=
